@@ -20,7 +20,7 @@
                         independently of which of the two has the lower internal index (CNOT vs CNOT_inv, ECR vs
                         ECR_inv, slot 0 = lower index) is a consistency requirement on the plugged gate set, not proved here.
      internalise        the item list on internal indices, first operation first. *)
-From Coq Require Import List Bool Arith Lia Ring.
+From Coq Require Import List Bool Arith Lia Ring Permutation.
 Require Import QG.Base.State QG.Base.Perm.
 Import ListNotations.
 
@@ -105,6 +105,23 @@ Proof.
   now apply transport_permute.
 Qed.
 End Perm.
+
+(* ------------------------------------------------------------------ one-qubit items on pairwise distinct qubits commute *)
+Lemma sem_cons it r psi : sem (it :: r) psi = sem r (apply_item it psi).
+Proof. reflexivity. Qed.
+
+Definition mk1 (p : m2 R * nat) : item R := It1 (fst p) (snd p).
+Lemma sem_It1_perm l1 l2 : Permutation l1 l2 -> NoDup (map snd l1) ->
+  forall psi b, sem (map mk1 l1) psi b = sem (map mk1 l2) psi b.
+Proof.
+  induction 1 as [|x l l' P IH|x y l|l l' l'' P1 IH1 P2 IH2]; intros ND psi b.
+  - reflexivity.
+  - cbn [map]. rewrite !sem_cons. apply IH. cbn [map] in ND. now apply NoDup_cons_iff in ND.
+  - cbn [map]. rewrite !sem_cons. apply (sem_ext R radd rmul (length b)); [|reflexivity].
+    intros c _. cbn [mk1 State.apply_item]. apply (commute11 R rO rI radd rmul rsub ropp Rth).
+    cbn [map] in ND. apply NoDup_cons_iff in ND as [Hn _]. intros E. apply Hn. left. now rewrite E.
+  - rewrite IH1 by assumption. apply IH2. eapply Permutation_NoDup; [apply Permutation_map; exact P1 | exact ND].
+Qed.
 
 (* ------------------------------------------------------------------ circuits on physical labels *)
 Section Model.
@@ -191,6 +208,45 @@ Theorem relabel_sem circ phi phi' psi b : Forall (pop_on L) circ -> (forall j, j
 Proof.
   intros F Hphi Lb. rewrite (internalise_relabel circ F phi phi' Hphi).
   apply (sem_equiv n s Hs); auto. now apply internalise_lt.
+Qed.
+
+(* ---- the read-out layer: after the circuit, one one-qubit matrix ro(own values) on EVERY internal qubit k = 0..n-1 in
+   this order (simulator: for k in range(nqubit): circ.bitflip(k, tm[layout[k]], rout[layout[k]]));  lb k is the
+   label sitting at internal index k.  Relabelling changes the ORDER in which the physical qubits receive their
+   read-out matrix; one-qubit matrices on distinct qubits commute. ---- *)
+Variable ro : cal -> m2 R.
+Definition readout (lb : nat -> nat) (T : nat -> cal) : list (item R) :=
+  map (fun k => It1 (ro (T (lb k))) k) (seq 0 n).
+
+Variables lb lb' : nat -> nat.
+Hypothesis Hlb : forall k, k < n -> In (lb k) L.
+Hypothesis Hlb' : forall k, k < n -> lb' (s k) = pi (lb k).
+
+Lemma readout_lt : Forall (item_lt n) (readout lb T1).
+Proof. apply Forall_forall. intros it H. apply in_map_iff in H as (k & <- & Hk). apply in_seq in Hk. cbn [item_lt]. lia. Qed.
+
+Lemma readout_relabel psi b :
+  sem (readout lb' T1') psi b = sem (map (rename s) (readout lb T1)) psi b.
+Proof.
+  set (g := fun r => (ro (T1' (lb' r)), r)).
+  assert (E1 : readout lb' T1' = map mk1 (map g (seq 0 n))).
+  { unfold readout. rewrite map_map. reflexivity. }
+  assert (E2 : map (rename s) (readout lb T1) = map mk1 (map g (map s (seq 0 n)))).
+  { unfold readout. rewrite !map_map. apply map_ext_in. intros k Hk. apply in_seq in Hk.
+    unfold g, mk1. cbn [fst snd rename]. rewrite Hlb', HT1 by (try apply Hlb; lia). reflexivity. }
+  rewrite E1, E2. symmetry. apply sem_It1_perm.
+  - apply Permutation_map. now apply perm_on_Permutation.
+  - rewrite map_map. unfold g. cbn [snd]. rewrite map_id.
+    eapply Permutation_NoDup; [symmetry; apply perm_on_Permutation; exact Hs | apply seq_NoDup].
+Qed.
+
+Theorem relabel_sem_ro circ phi phi' psi b : Forall (pop_on L) circ -> (forall j, j < n -> phi' (s j) = phi j) -> length b = n ->
+  sem (internalise idx' T1' T2' (map (relabel pi) circ) phi' ++ readout lb' T1') (transport s psi) (permute s b)
+  = sem (internalise idx T1 T2 circ phi ++ readout lb T1) psi b.
+Proof.
+  intros F Hphi Lb. rewrite (sem_app R radd rmul). rewrite readout_relabel. rewrite <- (sem_app R radd rmul).
+  rewrite (internalise_relabel circ F phi phi' Hphi). rewrite <- map_app.
+  apply (sem_equiv n s Hs); auto. apply Forall_app. split; [now apply internalise_lt | apply readout_lt].
 Qed.
 End Rel.
 End Model.
